@@ -110,7 +110,7 @@ func (w *walker) isShared(o types.Object) bool {
 // Walk enumerates the paths of an entry.
 func Walk(prog *Prog, cfg *Config, entry Entry, onPath func(*Path)) (nPaths int, err error) {
 	if cfg.MaxDepth == 0 {
-		cfg.MaxDepth = 6
+		cfg.MaxDepth = 10
 	}
 	if cfg.MaxPaths == 0 {
 		cfg.MaxPaths = 20000
